@@ -5,7 +5,7 @@
    floats against /repo in the correspondence stage of harness/c03.py. *)
 From Coq Require Import Reals ZArith List Bool.
 From Coquelicot Require Import Coquelicot.
-From GS Require Import Num Loops C03_Model C03_RInst C03_Proofs C03_Closed C03_Integral.
+From GS Require Import Num Loops Formulas Formulas_gen C03_Model C03_RInst C03_Proofs C03_Closed C03_Integral C03_Tie.
 Import ListNotations.
 Open Scope R_scope.
 Notation OR := Rops3.
@@ -164,42 +164,44 @@ Theorem C03_nugget_variants_any :
 Proof. exact nugget_variants. Qed.
 Print Assumptions C03_nugget_variants_any.
 
-(* ------------------------------------------------------------------ documented closed forms *)
+(* ------------------------------------------------------------------ documented closed forms
+   stated about the formulas TRANSLATED FROM THE SOURCE on this run (Formulas_gen.*_cor, coq/gen/Formulas_gen.v);
+   the ties C03_tie_* below connect them to the hand model that the correspondence executes *)
 Theorem C03_closed_form_Gaussian :
   forall ora var nug len resc r, 0 < len -> 0 < resc -> 0 <= r ->
-    variogram_of (OR ora) (cor_gaussian (OR ora)) var nug (len_rescaled (OR ora) len resc) r
+    variogram_of (OR ora) (Formulas_gen.Gaussian_cor (OR ora)) var nug (len_rescaled (OR ora) len resc) r
     = var * (1 - exp (- (resc * r / len) ^ 2)) + nug.
-Proof. exact closed_gaussian. Qed.
+Proof. intros ora. rewrite Gaussian_cor_eq. exact (closed_gaussian ora). Qed.
 Print Assumptions C03_closed_form_Gaussian.
 
 Theorem C03_closed_form_Exponential :
   forall ora var nug len resc r, 0 < len -> 0 < resc -> 0 <= r ->
-    variogram_of (OR ora) (cor_exponential (OR ora)) var nug (len_rescaled (OR ora) len resc) r
+    variogram_of (OR ora) (Formulas_gen.Exponential_cor (OR ora)) var nug (len_rescaled (OR ora) len resc) r
     = var * (1 - exp (- (resc * r / len))) + nug.
 Proof. exact closed_exponential. Qed.
 Print Assumptions C03_closed_form_Exponential.
 
 Theorem C03_closed_form_Stable :
   forall ora len resc r, 0 < len -> 0 < resc -> 0 <= r -> forall alpha, 0 < alpha ->
-    correlation_of (OR ora) (cor_stable (OR ora) alpha) (len_rescaled (OR ora) len resc) r
+    correlation_of (OR ora) (Formulas_gen.Stable_cor (OR ora) alpha) (len_rescaled (OR ora) len resc) r
     = let h := resc * r / len in if Req_EM_T h 0 then 1 else exp (- Rpower h alpha).
 Proof. intros ora len resc r. exact (closed_stable ora 0 0 len resc r). Qed.
 Print Assumptions C03_closed_form_Stable.
 
 Theorem C03_closed_form_Rational :
   forall ora len resc r, 0 < len -> 0 < resc -> 0 <= r -> forall alpha, 0 < alpha ->
-    correlation_of (OR ora) (cor_rational (OR ora) alpha) (len_rescaled (OR ora) len resc) r
+    correlation_of (OR ora) (Formulas_gen.Rational_cor (OR ora) alpha) (len_rescaled (OR ora) len resc) r
     = Rpower (1 + / alpha * (resc * r / len) ^ 2) (- alpha).
-Proof. intros ora len resc r. exact (closed_rational ora 0 0 len resc r). Qed.
+Proof. intros ora len resc r Hl Hs Hr alpha Ha. rewrite Rational_cor_eq. exact (closed_rational ora 0 0 len resc r Hl Hs Hr alpha Ha). Qed.
 Print Assumptions C03_closed_form_Rational.
 
 Theorem C03_closed_form_Cubic :
   forall ora len resc r, 0 < len -> 0 < resc -> 0 <= r ->
-    correlation_of (OR ora) (cor_cubic (OR ora)) (len_rescaled (OR ora) len resc) r
+    correlation_of (OR ora) (Formulas_gen.Cubic_cor (OR ora)) (len_rescaled (OR ora) len resc) r
     = let h := resc * r / len in
       if Rlt_dec r (len / resc) then 1 - 7 * h ^ 2 + 35 / 4 * h ^ 3 - 7 / 2 * h ^ 5 + 3 / 4 * h ^ 7 else 0.
 Proof.
-  intros ora len resc r Hl Hs Hr. rewrite (closed_cubic ora 0 0 len resc r Hl Hs Hr). unfold doc_cubic. cbv zeta.
+  intros ora len resc r Hl Hs Hr. rewrite Cubic_cor_eq. rewrite (closed_cubic ora 0 0 len resc r Hl Hs Hr). unfold doc_cubic. cbv zeta.
   pose proof (range_edge len resc r Hl Hs) as E.
   destruct (Rlt_dec (resc * r / len) 1), (Rlt_dec r (len / resc)); tauto.
 Qed.
@@ -207,10 +209,10 @@ Print Assumptions C03_closed_form_Cubic.
 
 Theorem C03_closed_form_Linear :
   forall ora len resc r, 0 < len -> 0 < resc -> 0 <= r ->
-    correlation_of (OR ora) (cor_linear (OR ora)) (len_rescaled (OR ora) len resc) r
+    correlation_of (OR ora) (Formulas_gen.Linear_cor (OR ora)) (len_rescaled (OR ora) len resc) r
     = if Rlt_dec r (len / resc) then 1 - resc * r / len else 0.
 Proof.
-  intros ora len resc r Hl Hs Hr. rewrite (closed_linear ora 0 0 len resc r Hl Hs Hr). unfold doc_linear.
+  intros ora len resc r Hl Hs Hr. rewrite Linear_cor_eq. rewrite (closed_linear ora 0 0 len resc r Hl Hs Hr). unfold doc_linear.
   pose proof (range_edge len resc r Hl Hs) as E.
   destruct (Rlt_dec (resc * r / len) 1), (Rlt_dec r (len / resc)); tauto.
 Qed.
@@ -218,11 +220,11 @@ Print Assumptions C03_closed_form_Linear.
 
 Theorem C03_closed_form_Circular :
   forall ora len resc r, 0 < len -> 0 < resc -> 0 <= r ->
-    correlation_of (OR ora) (cor_circular (OR ora)) (len_rescaled (OR ora) len resc) r
+    correlation_of (OR ora) (Formulas_gen.Circular_cor (OR ora)) (len_rescaled (OR ora) len resc) r
     = let h := resc * r / len in
       if Rlt_dec r (len / resc) then 2 / PI * (acos h - h * sqrt (1 - h ^ 2)) else 0.
 Proof.
-  intros ora len resc r Hl Hs Hr. rewrite (closed_circular ora 0 0 len resc r Hl Hs Hr). unfold doc_circular. cbv zeta.
+  intros ora len resc r Hl Hs Hr. rewrite Circular_cor_eq. rewrite (closed_circular ora 0 0 len resc r Hl Hs Hr). unfold doc_circular. cbv zeta.
   pose proof (range_edge len resc r Hl Hs) as E.
   destruct (Rlt_dec (resc * r / len) 1), (Rlt_dec r (len / resc)); tauto.
 Qed.
@@ -230,11 +232,11 @@ Print Assumptions C03_closed_form_Circular.
 
 Theorem C03_closed_form_Spherical :
   forall ora len resc r, 0 < len -> 0 < resc -> 0 <= r ->
-    correlation_of (OR ora) (cor_spherical (OR ora)) (len_rescaled (OR ora) len resc) r
+    correlation_of (OR ora) (Formulas_gen.Spherical_cor (OR ora)) (len_rescaled (OR ora) len resc) r
     = let h := resc * r / len in
       if Rlt_dec r (len / resc) then 1 - 3 / 2 * h + 1 / 2 * h ^ 3 else 0.
 Proof.
-  intros ora len resc r Hl Hs Hr. rewrite (closed_spherical ora 0 0 len resc r Hl Hs Hr). unfold doc_spherical. cbv zeta.
+  intros ora len resc r Hl Hs Hr. rewrite Spherical_cor_eq. rewrite (closed_spherical ora 0 0 len resc r Hl Hs Hr). unfold doc_spherical. cbv zeta.
   pose proof (range_edge len resc r Hl Hs) as E.
   destruct (Rlt_dec (resc * r / len) 1), (Rlt_dec r (len / resc)); tauto.
 Qed.
@@ -242,10 +244,10 @@ Print Assumptions C03_closed_form_Spherical.
 
 Theorem C03_closed_form_TPLSimple :
   forall ora len resc r nu, 0 < len -> 0 < resc -> 0 <= r -> 0 < nu ->
-    correlation_of (OR ora) (cor_tplsimple (OR ora) nu) (len_rescaled (OR ora) len resc) r
+    correlation_of (OR ora) (Formulas_gen.TPLSimple_cor (OR ora) nu) (len_rescaled (OR ora) len resc) r
     = if Rlt_dec r (len / resc) then Rpower (1 - resc * r / len) nu else 0.
 Proof.
-  intros ora len resc r nu Hl Hs Hr Hn. rewrite (closed_tplsimple ora 0 0 len resc r Hl Hs Hr nu Hn). unfold doc_tplsimple.
+  intros ora len resc r nu Hl Hs Hr Hn. rewrite TPLSimple_cor_eq. rewrite (closed_tplsimple ora 0 0 len resc r Hl Hs Hr nu Hn). unfold doc_tplsimple.
   pose proof (range_edge len resc r Hl Hs) as E.
   destruct (Rlt_dec (resc * r / len) 1), (Rlt_dec r (len / resc)); tauto.
 Qed.
@@ -254,11 +256,20 @@ Print Assumptions C03_closed_form_TPLSimple.
 (* correlation 1 at lag 0 for all elementary models (plain variogram(0) = nugget, covariance(0) = var) *)
 Theorem C03_cor_at_zero :
   forall ora,
-    cor_gaussian (OR ora) 0 = 1 /\ cor_exponential (OR ora) 0 = 1 /\ cor_cubic (OR ora) 0 = 1 /\
-    cor_linear (OR ora) 0 = 1 /\ cor_circular (OR ora) 0 = 1 /\ cor_spherical (OR ora) 0 = 1 /\
-    (forall a, 0 < a -> cor_stable (OR ora) a 0 = 1) /\ (forall a, 0 < a -> cor_rational (OR ora) a 0 = 1) /\
-    (forall nu, 0 < nu -> cor_tplsimple (OR ora) nu 0 = 1).
-Proof. exact cor_at_zero. Qed.
+    Formulas_gen.Gaussian_cor (OR ora) 0 = 1 /\ Formulas_gen.Exponential_cor (OR ora) 0 = 1 /\
+    Formulas_gen.Cubic_cor (OR ora) 0 = 1 /\ Formulas_gen.Linear_cor (OR ora) 0 = 1 /\
+    Formulas_gen.Circular_cor (OR ora) 0 = 1 /\ Formulas_gen.Spherical_cor (OR ora) 0 = 1 /\
+    (forall a, 0 < a -> Formulas_gen.Stable_cor (OR ora) a 0 = 1) /\
+    (forall a, 0 < a -> Formulas_gen.Rational_cor (OR ora) a 0 = 1) /\
+    (forall nu, 0 < nu -> Formulas_gen.TPLSimple_cor (OR ora) nu 0 = 1).
+Proof.
+  intros ora. rewrite Gaussian_cor_eq, Cubic_cor_eq, Linear_cor_eq, Circular_cor_eq, Spherical_cor_eq.
+  destruct (cor_at_zero ora) as (A & B & C & D & E & F & G & H & K).
+  split; [exact A|]. split; [exact B|]. split; [exact C|]. split; [exact D|]. split; [exact E|]. split; [exact F|].
+  split; [exact G|]. split.
+  - intros a Ha. rewrite Rational_cor_eq. exact (H a Ha).
+  - intros nu Hn. rewrite TPLSimple_cor_eq. exact (K nu Hn).
+Qed.
 Print Assumptions C03_cor_at_zero.
 
 (* Matern: the branch structure around the oracle values (nu > 20 is the documented Gaussian limit) *)
@@ -274,38 +285,38 @@ Print Assumptions C03_matern_structure.
 Theorem C03_integral_scale_Exponential :
   forall ora len resc, 0 < len -> 0 < resc ->
     let lr := len_rescaled (OR ora) len resc in
-    is_RInt_gen (correlation_of (OR ora) (cor_exponential (OR ora)) lr) (at_point 0) (Rbar_locally p_infty)
-                (intscale_exponential lr).
+    is_RInt_gen (correlation_of (OR ora) (Formulas_gen.Exponential_cor (OR ora)) lr) (at_point 0) (Rbar_locally p_infty)
+                (Formulas_gen.Exponential_calc_integral_scale lr).
 Proof. exact integral_scale_exponential. Qed.
 Print Assumptions C03_integral_scale_Exponential.
 
 Theorem C03_integral_scale_Linear :
   forall ora len resc, 0 < len -> 0 < resc ->
-    is_RInt_gen (correlation_of (OR ora) (cor_linear (OR ora)) (len_rescaled (OR ora) len resc))
+    is_RInt_gen (correlation_of (OR ora) (Formulas_gen.Linear_cor (OR ora)) (len_rescaled (OR ora) len resc))
                 (at_point 0) (Rbar_locally p_infty) (len_rescaled (OR ora) len resc * / 2).
-Proof. exact integral_scale_linear. Qed.
+Proof. intros ora. rewrite Linear_cor_eq. exact (integral_scale_linear ora). Qed.
 Print Assumptions C03_integral_scale_Linear.
 
 Theorem C03_integral_scale_Spherical :
   forall ora len resc, 0 < len -> 0 < resc ->
-    is_RInt_gen (correlation_of (OR ora) (cor_spherical (OR ora)) (len_rescaled (OR ora) len resc))
+    is_RInt_gen (correlation_of (OR ora) (Formulas_gen.Spherical_cor (OR ora)) (len_rescaled (OR ora) len resc))
                 (at_point 0) (Rbar_locally p_infty) (len_rescaled (OR ora) len resc * (3 / 8)).
-Proof. exact integral_scale_spherical. Qed.
+Proof. intros ora. rewrite Spherical_cor_eq. exact (integral_scale_spherical ora). Qed.
 Print Assumptions C03_integral_scale_Spherical.
 
 Theorem C03_integral_scale_Cubic :
   forall ora len resc, 0 < len -> 0 < resc ->
-    is_RInt_gen (correlation_of (OR ora) (cor_cubic (OR ora)) (len_rescaled (OR ora) len resc))
+    is_RInt_gen (correlation_of (OR ora) (Formulas_gen.Cubic_cor (OR ora)) (len_rescaled (OR ora) len resc))
                 (at_point 0) (Rbar_locally p_infty) (len_rescaled (OR ora) len resc * (35 / 96)).
-Proof. exact integral_scale_cubic. Qed.
+Proof. intros ora. rewrite Cubic_cor_eq. exact (integral_scale_cubic ora). Qed.
 Print Assumptions C03_integral_scale_Cubic.
 
 (* partial: shape parameter an integer n >= 1 (covers the defaults (dim+1)/2 of dim 1 and 3) *)
 Theorem C03_integral_scale_TPLSimple_partial :
   forall ora len resc, 0 < len -> 0 < resc -> forall n : nat, (1 <= n)%nat ->
-    is_RInt_gen (correlation_of (OR ora) (cor_tplsimple (OR ora) (IZR (Z.of_nat n))) (len_rescaled (OR ora) len resc))
+    is_RInt_gen (correlation_of (OR ora) (Formulas_gen.TPLSimple_cor (OR ora) (IZR (Z.of_nat n))) (len_rescaled (OR ora) len resc))
                 (at_point 0) (Rbar_locally p_infty) (len_rescaled (OR ora) len resc * / (IZR (Z.of_nat n) + 1)).
-Proof. exact integral_scale_tplsimple. Qed.
+Proof. intros ora len resc Hl Hs n Hn. rewrite TPLSimple_cor_eq. exact (integral_scale_tplsimple ora len resc Hl Hs n Hn). Qed.
 Print Assumptions C03_integral_scale_TPLSimple_partial.
 
 (* prescribing the integral scale: for every class whose integral scale is len_rescaled * kappa *)
@@ -363,3 +374,138 @@ Theorem C03_assignment_frame :
     ((forall v, op <> SetLen v) -> (forall t, op <> SetIntScale t) -> s_len st' = s_len st).
 Proof. exact @set_step_frame. Qed.
 Print Assumptions C03_assignment_frame.
+
+(* ------------------------------------------------------------------ hand model = formula translated from the source
+   (coq/gen/Formulas_gen.v is regenerated from /repo on every run; a changed formula breaks these) *)
+Theorem C03_tie_Exponential_cor :
+  forall (T : Type) (O : NumOps T) h, Formulas_gen.Exponential_cor O h = cor_exponential O h.
+Proof. exact @Exponential_cor_tie. Qed.
+Print Assumptions C03_tie_Exponential_cor.
+
+Theorem C03_tie_Stable_cor :
+  forall (T : Type) (O : NumOps T) alpha h, Formulas_gen.Stable_cor O alpha h = cor_stable O alpha h.
+Proof. exact @Stable_cor_tie. Qed.
+Print Assumptions C03_tie_Stable_cor.
+
+Theorem C03_tie_tplstable_cor :
+  forall (T : Type) (O : NumOps T) r len hurst alpha, Formulas_gen.tplstable_cor O r len hurst alpha = C03_Model.tplstable_cor O r len hurst alpha.
+Proof. exact @tplstable_cor_tie. Qed.
+Print Assumptions C03_tie_tplstable_cor.
+
+Theorem C03_tie_TPLStable_correlation :
+  forall (T : Type) (O : NumOps T) len resc len_low hurst alpha r,
+    Formulas_gen.TPLStable_correlation O (ndiv O len_low resc) (ndiv O len resc) hurst alpha (ndiv O (nadd O len_low len) resc) r
+    = tpl_correlation O len resc len_low hurst alpha r.
+Proof. exact @TPLStable_correlation_tie. Qed.
+Print Assumptions C03_tie_TPLStable_correlation.
+
+Theorem C03_tie_TPLGaussian_correlation :
+  forall (T : Type) (O : NumOps T) len resc len_low hurst r,
+    Formulas_gen.TPLGaussian_correlation O (ndiv O len_low resc) (ndiv O len resc) hurst (ndiv O (nadd O len_low len) resc) r
+    = tpl_correlation O len resc len_low hurst (nlit O 2 0) r.
+Proof. exact @TPLGaussian_correlation_tie. Qed.
+Print Assumptions C03_tie_TPLGaussian_correlation.
+
+Theorem C03_tie_TPLExponential_correlation :
+  forall (T : Type) (O : NumOps T) len resc len_low hurst r,
+    Formulas_gen.TPLExponential_correlation O (ndiv O len_low resc) (ndiv O len resc) hurst (ndiv O (nadd O len_low len) resc) r
+    = tpl_correlation O len resc len_low hurst (n1 O) r.
+Proof. exact @TPLExponential_correlation_tie. Qed.
+Print Assumptions C03_tie_TPLExponential_correlation.
+
+Theorem C03_tie_Gaussian_calc_integral_scale :
+  forall (T : Type) (O : NumOps T) lr, Formulas_gen.Gaussian_calc_integral_scale O lr = intscale_gaussian O lr.
+Proof. exact @Gaussian_calc_integral_scale_tie. Qed.
+Print Assumptions C03_tie_Gaussian_calc_integral_scale.
+
+Theorem C03_tie_Exponential_calc_integral_scale :
+  forall (T : Type) (lr : T), Formulas_gen.Exponential_calc_integral_scale lr = intscale_exponential lr.
+Proof. exact @Exponential_calc_integral_scale_tie. Qed.
+Print Assumptions C03_tie_Exponential_calc_integral_scale.
+
+Theorem C03_tie_Stable_calc_integral_scale :
+  forall (T : Type) (O : NumOps T) lr alpha, Formulas_gen.Stable_calc_integral_scale O lr alpha = intscale_stable O alpha lr.
+Proof. exact @Stable_calc_integral_scale_tie. Qed.
+Print Assumptions C03_tie_Stable_calc_integral_scale.
+
+Theorem C03_tie_Matern_calc_integral_scale :
+  forall (T : Type) (O : NumOps T) lr nu, Formulas_gen.Matern_calc_integral_scale O lr nu = intscale_matern O nu lr.
+Proof. exact @Matern_calc_integral_scale_tie. Qed.
+Print Assumptions C03_tie_Matern_calc_integral_scale.
+
+Theorem C03_tie_Integral_calc_integral_scale :
+  forall (T : Type) (O : NumOps T) lr nu, Formulas_gen.Integral_calc_integral_scale O lr nu = intscale_integral O nu lr.
+Proof. exact @Integral_calc_integral_scale_tie. Qed.
+Print Assumptions C03_tie_Integral_calc_integral_scale.
+
+Theorem C03_tie_Rational_calc_integral_scale :
+  forall (T : Type) (O : NumOps T) lr alpha, Formulas_gen.Rational_calc_integral_scale O lr alpha = intscale_rational O alpha lr.
+Proof. exact @Rational_calc_integral_scale_tie. Qed.
+Print Assumptions C03_tie_Rational_calc_integral_scale.
+
+Theorem C03_tie_Gaussian_default_rescale :
+  forall (T : Type) (O : NumOps T), Formulas_gen.Gaussian_default_rescale O = rescale_gaussian O.
+Proof. exact @Gaussian_default_rescale_tie. Qed.
+Print Assumptions C03_tie_Gaussian_default_rescale.
+
+Theorem C03_tie_great_circle_to_chordal :
+  forall (T : Type) (O : NumOps T) zeta geo, Formulas_gen.great_circle_to_chordal O zeta geo = chord O geo zeta.
+Proof. exact @great_circle_to_chordal_tie. Qed.
+Print Assumptions C03_tie_great_circle_to_chordal.
+
+(* at R (x ** 2 is np.square in the model and pow in the translation; fmin/fmax vs numpy's NaN-aware rule; masks) *)
+Theorem C03_tie_Gaussian_cor :
+  forall ora h, Formulas_gen.Gaussian_cor (OR ora) h = cor_gaussian (OR ora) h.
+Proof. exact Gaussian_cor_tie. Qed.
+Print Assumptions C03_tie_Gaussian_cor.
+
+Theorem C03_tie_Rational_cor :
+  forall ora alpha h, Formulas_gen.Rational_cor (OR ora) alpha h = cor_rational (OR ora) alpha h.
+Proof. exact Rational_cor_tie. Qed.
+Print Assumptions C03_tie_Rational_cor.
+
+Theorem C03_tie_Integral_cor :
+  forall ora nu h, Formulas_gen.Integral_cor (OR ora) nu h = cor_integral (OR ora) nu h.
+Proof. exact Integral_cor_tie. Qed.
+Print Assumptions C03_tie_Integral_cor.
+
+Theorem C03_tie_Cubic_cor :
+  forall ora h, Formulas_gen.Cubic_cor (OR ora) h = cor_cubic (OR ora) h.
+Proof. exact Cubic_cor_tie. Qed.
+Print Assumptions C03_tie_Cubic_cor.
+
+Theorem C03_tie_Linear_cor :
+  forall ora h, Formulas_gen.Linear_cor (OR ora) h = cor_linear (OR ora) h.
+Proof. exact Linear_cor_tie. Qed.
+Print Assumptions C03_tie_Linear_cor.
+
+Theorem C03_tie_Circular_cor :
+  forall ora h, Formulas_gen.Circular_cor (OR ora) h = cor_circular (OR ora) h.
+Proof. exact Circular_cor_tie. Qed.
+Print Assumptions C03_tie_Circular_cor.
+
+Theorem C03_tie_Spherical_cor :
+  forall ora h, Formulas_gen.Spherical_cor (OR ora) h = cor_spherical (OR ora) h.
+Proof. exact Spherical_cor_tie. Qed.
+Print Assumptions C03_tie_Spherical_cor.
+
+Theorem C03_tie_SuperSpherical_cor :
+  forall ora nu h, Formulas_gen.SuperSpherical_cor (OR ora) nu h = cor_superspherical (OR ora) nu h.
+Proof. exact SuperSpherical_cor_tie. Qed.
+Print Assumptions C03_tie_SuperSpherical_cor.
+
+Theorem C03_tie_HyperSpherical_cor :
+  forall ora (dim : Z) h, Formulas_gen.HyperSpherical_cor (OR ora) (IZR dim) h = cor_hyperspherical (OR ora) dim h.
+Proof. exact HyperSpherical_cor_tie. Qed.
+Print Assumptions C03_tie_HyperSpherical_cor.
+
+Theorem C03_tie_JBessel_cor :
+  forall ora nu h, Formulas_gen.JBessel_cor (OR ora) nu h = cor_jbessel (OR ora) nu h.
+Proof. exact JBessel_cor_tie. Qed.
+Print Assumptions C03_tie_JBessel_cor.
+
+Theorem C03_tie_TPLSimple_cor :
+  forall ora nu h, Formulas_gen.TPLSimple_cor (OR ora) nu h = cor_tplsimple (OR ora) nu h.
+Proof. exact TPLSimple_cor_tie. Qed.
+Print Assumptions C03_tie_TPLSimple_cor.
+
